@@ -116,3 +116,58 @@ func H16_run() {
 	}
 	sv.Reach("ran")
 }
+
+// programs that try to get an optional past the checker without get(o, d):
+// through empty literals (whose element type ⊥ must not absorb an optional
+// and then turn into the payload type), through generic built-ins and
+// through containers
+var smuggleProgs = []string{
+	"if(true, [[], [o]][1][0], 0) + 1", "len(if(true, [[], [s]][1][0], \"\"))", "if(c, [o], [])[0] + 1", "if(c, [], [o])[0] + 1",
+	"get([[], [o]], 1, [])[0] + 1", "get([o], 0, 0) + 1", "get([:], k, o) + 1", "[[], [o]][1][0] + 1", "[[], [o]]", "[[:], [k: o]]",
+	"if(c, o, 0) + 1", "[o, 0][0] + 1", "max(o, 1)", "max([o])", "[k: o][k] + 1", "{f: o}.f + 1", "union([o], [1])[0] + 1", "union([], [o])[0] + 1",
+	"if(c, o, o) + 1", "get(o, 0) + 1", "get(get([o], 0, o), 0) + 1", "len(get(s, \"\"))", "get([[], [o]][1], 0, o)",
+}
+
+// H16_smuggle: whatever a program does with an optional other than
+// get(optional, default) either keeps the optional type or is rejected - the
+// reference rules and the checker agree on each program; and an accepted one
+// never fails for a present or an absent payload.
+func H16_smuggle() {
+	e := Eng()
+	src := smuggleProgs[sv.Choice("prog", len(smuggleProgs))]
+	tys := map[string]*types.Type{"o": tON, "s": types.Maybe(tStr), "c": tBool, "k": tStr}
+	names := []string{"o", "s", "c", "k"}
+	r := &refEnv{vars: tys}
+	for _, f := range fun.BuiltIn() {
+		r.funs = append(r.funs, f.Type)
+	}
+	var parsed ast.Expr
+	pcls := sv.Outcome(func() { parsed = e.Parse(src) })
+	sv.Assert("parses", pcls == "ok")
+	var got *types.Type
+	var expr ast.Expr
+	cls := sv.Outcome(func() { expr, got = e.CheckAST(parsed, tys, names) })
+	want, why := r.infer(refDesugar(parsed))
+	if want == nil {
+		sv.Reach("rejected-by-the-rules")
+		if cls == "ok" {
+			sv.Logf("accepted although: %s (%s : %s)", why, src, got.String())
+		}
+		sv.Assert("optional-where-payload-required-is-rejected", cls != "ok" && hasPrefix(cls, "assert:"))
+		return
+	}
+	sv.Reach("accepted-by-the-rules")
+	sv.Assert("accepted", cls == "ok")
+	if cls != "ok" {
+		return
+	}
+	sv.Assert("inferred-type", RefTypeEq(got, want))
+	vals := map[string]*val.Val{"o": AnyVal(tON, "o"), "s": AnyVal(types.Maybe(tStr), "s"), "c": AnyVal(tBool, "c"), "k": val.Str("k")}
+	res, c := runAll(e, expr, vals, names)
+	for b := 0; b < NBackends; b++ {
+		sv.Assert("never-fails-because-of-absence:"+BackendNames[b], c[b] == "ok" || IsOutOfRange(c[b]) || IsUndefinedKey(c[b]))
+		if c[b] == "ok" {
+			sv.Assert("well-typed:"+BackendNames[b], RefWellTyped(res[b], got) == "")
+		}
+	}
+}
